@@ -226,6 +226,141 @@ pub fn run_leftrec(name: &str, len: usize, cx: &ShardCtx) -> UnitResult {
 }
 
 // =================================================================================================
+// C11 / C13: one memoized parser used at several places of a left-recursive grammar, shared as ONE value
+// (Rc) or as value clones (Clone for Memoized, Box<Memoized>::clone): a clone is interchangeable with the
+// value it was cloned from, also as the in-progress marker that cuts left recursion
+// =================================================================================================
+
+macro_rules! shared_forms {
+    ($name:expr, |$share:ident, $atom:ident| $body:expr) => {{
+        let $atom = || just::<_, &str, Ex>('x').to("x".to_string());
+        // form A: every use refers to one value behind an Rc
+        let a: BP<String> = {
+            #[allow(unused_macros)]
+            macro_rules! $share {
+                ($p:expr) => {
+                    std::rc::Rc::new($p)
+                };
+            }
+            $body
+        };
+        // form B: every use is a clone of the combinator value itself
+        let b: BP<String> = {
+            #[allow(unused_macros)]
+            macro_rules! $share {
+                ($p:expr) => {
+                    $p
+                };
+            }
+            $body
+        };
+        // form C: the value lives in a Box; Box::clone clones the combinator value
+        let c: BP<String> = {
+            #[allow(unused_macros)]
+            macro_rules! $share {
+                ($p:expr) => {
+                    Box::new($p)
+                };
+            }
+            $body
+        };
+        ($name, a, b, c)
+    }};
+}
+
+type Shared<'a> = (&'static str, BP<'a, String>, BP<'a, String>, BP<'a, String>);
+
+pub fn shared_memo_variants<'a>() -> Vec<Shared<'a>> {
+    let f2 = |(a, b): (String, String)| format!("({a}+{b})");
+    vec![
+        shared_forms!("stmt = sum ';' | expr '?' ; expr = sum | atom ; sum = (expr '+' atom).memoized()  [sum used twice]", |share, atom| {
+            let mut expr = Recursive::declare();
+            let sum = share!(expr.clone().then_ignore(just('+')).then(atom()).map(f2).memoized());
+            expr.define(sum.clone().or(atom()));
+            sum.clone().then_ignore(just(';')).or(expr.then_ignore(just('?'))).boxed()
+        }),
+        shared_forms!("expr = sum '?' | sum | atom ; sum = (expr '+' atom).memoized()  [two uses in one choice]", |share, atom| {
+            recursive(|expr| {
+                let sum = share!(expr.then_ignore(just('+')).then(atom()).map(f2).memoized());
+                sum.clone().then_ignore(just('?')).map(|s: String| format!("{s}?")).or(sum.clone()).or(atom())
+            })
+            .boxed()
+        }),
+        shared_forms!("expr = (e '+' atom) | e ';' | atom ; e = expr.memoized()  [the recursive reference itself memoized and used twice]", |share, atom| {
+            recursive(|expr| {
+                let e = share!(expr.memoized());
+                e.clone().then_ignore(just('+')).then(atom()).map(f2).or(e.clone().then_ignore(just(';')).map(|s: String| format!("{s};"))).or(atom())
+            })
+            .boxed()
+        }),
+        shared_forms!("top = item (';' item)* ; item = m '?' | m ; m = (atom ('+' atom)*).memoized()  [no recursion: a cached result is looked up by the second use]", |share, atom| {
+            let m = share!(atom().foldl(just('+').ignore_then(atom()).repeated(), |a, b| format!("({a}+{b})")).memoized());
+            let item = m.clone().then_ignore(just('?')).map(|s: String| format!("{s}?")).or(m.clone());
+            item.clone().foldl(just(';').ignore_then(item).repeated(), |a, b| format!("{a};{b}")).boxed()
+        }),
+        shared_forms!("expr = s '+' atom | s '?' | atom ; s = (expr ';').memoized()  [left recursion reaches the second use after the first failed]", |share, atom| {
+            recursive(|expr| {
+                let s = share!(expr.then_ignore(just(';')).map(|s: String| format!("{s};")).memoized());
+                s.clone().then_ignore(just('+')).then(atom()).map(f2).or(s.clone().then_ignore(just('?'))).or(atom())
+            })
+            .boxed()
+        }),
+    ]
+}
+
+type SharedObs = Result<(Option<String>, Vec<String>, bool, usize), String>;
+
+fn obs_shared<'a>(p: &BP<'a, String>, s: &'a str) -> SharedObs {
+    catch_unwind(AssertUnwindSafe(|| {
+        let (o, e) = p.parse(s).into_output_errors();
+        let c = p.check(s);
+        let (ch, cn) = (c.has_output(), c.errors().len());
+        (o, e.iter().map(|e| format!("{e:?}")).collect::<Vec<_>>(), ch, cn)
+    }))
+    .map_err(cvh::e1::panic_msg)
+}
+
+pub fn run_shared_memo(name: &str, len: usize, cx: &ShardCtx) -> UnitResult {
+    let mut r = UnitResult { name: name.to_string(), exhaustive: true, ..Default::default() };
+    let ins = strings(&['x', '+', ';', '?'], len);
+    let vs = shared_memo_variants();
+    let mut distinct = HashSet::new();
+    let mut case = 0usize;
+    for (vi, (vname, pa, pb, pc)) in vs.iter().enumerate() {
+        for s in &ins {
+            let me = case % cx.nshards == cx.shard;
+            case += 1;
+            if !me || cx.skip.contains(&(case - 1)) {
+                continue;
+            }
+            (cx.progress)(case - 1);
+            r.cases += 1;
+            r.validated += 1;
+            r.states += 3 * (s.len() as u64 + 1);
+            r.transitions += 3 * (s.len() as u64 + 1);
+            let (a, b, c) = (obs_shared(pa, s), obs_shared(pb, s), obs_shared(pc, s));
+            if let Ok((o, ..)) = &a {
+                *r.counters.entry(if o.is_some() { "accepted" } else { "rejected" }.into()).or_default() += 1;
+                distinct.insert((vi, o.clone()));
+                if r.samples.len() < 5 && s.len() >= 4 && o.is_some() {
+                    r.samples.push(format!("{vname} on {s:?} -> {o:?} in all three sharing forms"));
+                }
+            }
+            if let Err(e) = &a {
+                mism(&mut r, "sharedmemo", name, vname.to_string(), s, format!("panic: {e}"));
+            } else if a != b {
+                mism(&mut r, "sharedmemo", name, vname.to_string(), s, format!("uses that are clones of the memoized value give {b:?}, uses that share one value (Rc) give {a:?}"));
+            } else if a != c {
+                mism(&mut r, "sharedmemo", name, vname.to_string(), s, format!("uses that are Box::clone()s of the memoized value give {c:?}, uses that share one value (Rc) give {a:?}"));
+            }
+        }
+    }
+    r.distinct_outcomes = distinct.len() as u64;
+    r.desc = format!("one memoized parser used at two places of a grammar ({} grammars, 4 of them left recursive through it), the uses sharing one value through an Rc vs being Clone::clone()s of the combinator value vs Box::clone()s of it: parse (output, every error) and check agree on all {} strings over \"x+;?\" of length <= {}", vs.len(), ins.len(), len);
+    r
+}
+
+// =================================================================================================
 // C12: guarded recursive templates against their unrolling
 // =================================================================================================
 
@@ -873,6 +1008,7 @@ pub fn run(unit: &str, tier: Tier, cx: &ShardCtx) -> UnitResult {
     let q = tier == Tier::Quick;
     match unit {
         "leftrec" => run_leftrec(unit, if q { 7 } else { 9 }, cx),
+        "memo-shared-by-clone" => run_shared_memo(unit, if q { 6 } else { 8 }, cx),
         "rec-templates" => run_templates(unit, if q { 8 } else { 10 }, cx),
         "rec-lifecycle" => run_lifecycle(unit, if q { 4 } else { 5 }, cx),
         "rec-depth" => {
